@@ -79,6 +79,16 @@ fn std_stats(st: &mut Stats, reg: &Reg, case: &Case, c: &Comparison, nontrivial:
     }
 }
 
+/// a predicted report of one of `classes` was made but the returned error does not hold it
+fn not_held(c: &Comparison, prop: &str, classes: &dyn Fn(&str) -> bool) -> Option<Verdict> {
+    c.not_held.iter().find(|(k, _)| classes(k)).map(|(k, l)| {
+        Verdict::Violation(
+            format!("{prop}|report-made-but-not-in-the-returned-error|{k}"),
+            json!({"what": format!("the {k} report at {} was handed to the error type but the returned error does not hold it", path_str(l)), "detail": c.final_reports.clone().err(), "history": hist(c)}),
+        )
+    })
+}
+
 fn alias_keys(f: &FieldTy) -> Vec<String> {
     vec![
         f.ident.clone(),
@@ -324,6 +334,9 @@ pub fn test_c08(reg: &Reg, case: &Case, stats: Option<&mut Stats>) -> Verdict {
             json!({"what": format!("unexpected missing-field report at {}", path_str(l)), "detail": c.reports.clone().err(), "history": hist(&c)}),
         );
     }
+    if let Some(v) = not_held(&c, "C08", &is_missing) {
+        return v;
+    }
     if let (Some(a), Ok(b)) = (&c.pred_value, &c.out.result) {
         if a != b {
             return Verdict::Violation("C08|default-or-skip-value-wrong".into(), json!({"what": c.value.clone().err(), "history": hist(&c)}));
@@ -475,6 +488,9 @@ pub fn test_c09(reg: &Reg, case: &Case, stats: Option<&mut Stats>) -> Verdict {
             json!({"what": format!("unexpected unknown-key report at {}", path_str(l)), "detail": c.reports.clone().err(), "history": hist(&c)}),
         );
     }
+    if let Some(v) = not_held(&c, "C09", &is_unknown) {
+        return v;
+    }
     if let Err(w) = &c.visits {
         if w.starts_with("examined-but-must-not") {
             return Verdict::Violation("C09|unknown-key-value-consumed".into(), json!({"what": w, "history": hist(&c)}));
@@ -622,6 +638,12 @@ pub fn test_c10(reg: &Reg, case: &Case, stats: Option<&mut Stats>) -> Verdict {
             json!({"what": format!("unexpected report at the enum position {}", path_str(l)), "detail": c.reports.clone().err(), "history": hist(&c)}),
         );
     }
+    if let Some((k, l)) = c.not_held.iter().find(rel) {
+        return Verdict::Violation(
+            format!("C10|report-made-but-not-in-the-returned-error|{k}"),
+            json!({"what": format!("the dispatch report at {} was handed to the error type but the returned error does not hold it", path_str(l)), "detail": c.final_reports.clone().err(), "history": hist(&c)}),
+        );
+    }
     if let (Some(a), Ok(b)) = (&c.pred_value, &c.out.result) {
         if a != b {
             return Verdict::Violation("C10|wrong-variant-or-fields".into(), json!({"what": c.value.clone().err(), "history": hist(&c)}));
@@ -699,6 +721,9 @@ pub fn test_c11(reg: &Reg, case: &Case, stats: Option<&mut Stats>) -> Verdict {
             format!("C11|spurious-conversion-failure|{k}"),
             json!({"what": format!("unexpected conversion/validation failure report at {}", path_str(l)), "detail": c.reports.clone().err(), "history": hist(&c)}),
         );
+    }
+    if let Some(v) = not_held(&c, "C11", &conv) {
+        return v;
     }
     if let (Some(a), Ok(b)) = (&c.pred_value, &c.out.result) {
         if a != b {
@@ -824,6 +849,15 @@ pub fn test_c06(reg: &Reg, case: &Case, stats: Option<&mut Stats>) -> Verdict {
             return Verdict::Violation(
                 format!("C06|{which}-absent-or-wrong|{}", dv_core::oracles::ctor_at(&e.ty, &p.loc, &c.seen)),
                 json!({"what": format!("expected {:?} at {}", p.kind, path_str(&p.loc)), "detail": c.reports.clone().err(), "history": hist(&c)}),
+            );
+        }
+    }
+    for p in c.pred.reports.iter().filter(|p| structural(&p.kind)) {
+        if c.not_held.iter().any(|(k, l)| (k == "BadSequenceLen" || k == "Unexpected") && *l == p.loc) {
+            let which = if matches!(p.kind, dv_core::interp::PKind::BadSequenceLen { .. }) { "arity-report" } else { "key-parse-report" };
+            return Verdict::Violation(
+                format!("C06|{which}-made-but-not-in-the-returned-error|{}", dv_core::oracles::ctor_at(&e.ty, &p.loc, &c.seen)),
+                json!({"what": format!("{:?} at {} was handed to the error type but the returned error does not hold it", p.kind, path_str(&p.loc)), "detail": c.final_reports.clone().err(), "history": hist(&c)}),
             );
         }
     }
